@@ -84,7 +84,7 @@
 (define-fun onePriceCoin ((pr Pricing)) Bool (and (= (slen (Pricing_Price pr)) 1) (>= (Coin_Amount (select (sarr (Pricing_Price pr)) 0)) 0)))
 (define-fun ordinary ((a Bytes)) Bool (and (not (= a (modAddr strlit_depositAcc))) (not (= a (modAddr strlit_requestAcc))) (not (= a (modAddr strlit_feeCollector)))))
 (define-fun wfBindAt ((r (Array Key Bytes)) (s Str) (p Bytes)) Bool
-  (=> (bindFound r s p) (and (= (ServiceBinding_ServiceName (bindOf r s p)) s) (= (ServiceBinding_Provider (bindOf r s p)) p)
+  (=> (bindFound r s p) (and (> (blen p) 0) (= (ServiceBinding_ServiceName (bindOf r s p)) s) (= (ServiceBinding_Provider (bindOf r s p)) p)
         (rng_ServiceBinding (bindOf r s p)) (ordinary (ServiceBinding_Owner (bindOf r s p)))
         (forall ((d Str)) (! (>= (amt (ServiceBinding_Deposit (bindOf r s p)) d) 0) :pattern ((amt (ServiceBinding_Deposit (bindOf r s p)) d))))
         ; the stored price terms are the parsed form of the published pricing text (C15)
@@ -234,6 +234,16 @@
            (and (ctxFound r (ridCtx rid)) (= (ridBatch rid) (RequestContext_BatchCounter (ctxOf r (ridCtx rid)))) (not (= (select r (KExpH (ridCtx rid))) bnil))))
        (=> (not (= (select r (KResp rid)) bnil)) (not (= (select r (KReq rid)) bnil)))))
 (define-fun recInv ((r (Array Key Bytes))) Bool (forall ((rid Bytes)) (! (recOK r rid) :pattern ((select r (KReq rid))) :pattern ((select r (KResp rid))))))
+; the two pending-request indexes list the same requests: the by-id marker of a pending request has its twin under
+; (service, provider, expiration height, id), and every entry of that index is the twin of a by-id marker
+(define-fun reqExp ((r (Array Key Bytes)) (rid Bytes)) Int (CompactRequest_ExpirationHeight (reqOf r rid)))
+(define-fun idxOK ((r (Array Key Bytes)) (rid Bytes)) Bool
+  (=> (isActive r rid) (not (= (select r (KActB (reqSvc r rid) (reqProv r rid) (reqExp r rid) rid)) bnil))))
+(define-fun idxBOK ((r (Array Key Bytes)) (s Str) (p Bytes) (h Int) (rid Bytes)) Bool
+  (=> (not (= (select r (KActB s p h rid)) bnil)) (and (isActive r rid) (= (reqSvc r rid) s) (= (reqProv r rid) p) (= (reqExp r rid) h))))
+(define-fun idxInv ((r (Array Key Bytes))) Bool
+  (and (forall ((rid Bytes)) (! (idxOK r rid) :pattern ((select r (KActID rid)))))
+       (forall ((s Str) (p Bytes) (h Int) (rid Bytes)) (! (idxBOK r s p h rid) :pattern ((select r (KActB s p h rid)))))))
 (define-fun actInv ((r (Array Key Bytes))) Bool (forall ((rid Bytes)) (! (actOK r rid) :pattern ((select r (KActID rid))))))
 
 ; ---- I_escrow (C01): what the request escrow owes: the fees of the requests still pending plus the earnings not yet withdrawn.
